@@ -101,11 +101,21 @@ def run_detect_oracle(outcome, tier, seed):
                     pass
     except ImportError:
         pass
+    # short texts of every format with a multi-byte character at each alignment, under every small fixed read size: wherever
+    # a trial stops reading, some schedule ends a read inside a character there
+    scheduled = [(d, None) for d in inputs]
+    for shift in range(4):
+        pad = "x" * shift
+        for text in ('[%stable]\nk = "\u00e9" # \u20ac comment\nj = 1 # \U0001f600\n' % pad, '%sk = "\u00e9\u20ac"\n# \u00e9\n' % pad,
+                     '{"%sk": "\u00e9\u20ac\U0001f600"} [1]' % pad, '%sk: "\u00e9"\n# \u20ac\n---\n- \U0001f600\n' % pad,
+                     '# \u00e9%s\n[t]\n"\u20ac" = 1\n' % pad):
+            for n in (1, 2, 3, 4, 5, 7):
+                scheduled.append((text.encode(), {"kind": "fixed", "n": n}))
     reqs, plan = [], []
     hx = lambda b: b.hex() if b else "-"
-    for i, data in enumerate(inputs):
+    for i, (data, fixed_sched) in enumerate(scheduled):
         targets = corpus.FORMATS if tier == "thorough" else [rng.choice(corpus.FORMATS)]
-        sched = corpus.random_sched(rng)
+        sched = fixed_sched or corpus.random_sched(rng)
         base = len(reqs)
         reqs.append({"id": len(reqs), "op": "detect", "input": hx(data), "mode": "slice"})
         reqs.append({"id": len(reqs), "op": "detect", "input": hx(data), "mode": "reader", "sched": sched})
